@@ -1397,18 +1397,4 @@ func (e *Engine) registerBytesBuffer() {
 		b.lens = nil
 		return IntV{S: c}
 	}
-	in["(*bytes.Buffer).WriteTo"] = func(r *Run, fr *frame, a []Value) Value {
-		b := r.bbuf(a[0])
-		w := a[1].(Iface)
-		if len(b.s.Segs) == 0 {
-			return Tuple{IntV{C: 0}, Iface{}}
-		}
-		m := r.eng.prog.LookupMethod(w.T, nil, "Write")
-		if m == nil {
-			panic(unsupported("Write method not found on %v", w.T))
-		}
-		res := r.callFunc(fr, m, []Value{w.V, BytesOf{S: b.s}}, nil).(Tuple)
-		b.s = StrV{}
-		return res
-	}
 }
